@@ -17,6 +17,7 @@ theorem readN_full {need : Nat} {evs : List SrvEv} {acc got : Bytes} {rest : Lis
   | cons e evs ih =>
     cases e with
     | timeout => simp [readN] at h
+    | intr => simp [readN] at h
     | eof => simp [readN] at h
     | data b =>
       simp only [readN] at h
@@ -46,6 +47,7 @@ theorem readN_not_full {need : Nat} {evs : List SrvEv} {acc : Bytes} (hpos : 0 <
   | cons e evs ih =>
     cases e with
     | timeout => simpa [stream] using hpos
+    | intr => simpa [stream] using hpos
     | eof => simpa [stream] using hpos
     | data b =>
       simp only [readN] at h
@@ -131,6 +133,7 @@ theorem readRounds_le (need : Nat) (evs : List SrvEv)
   | cons e evs ih =>
     cases e with
     | timeout => simp [readRounds]
+    | intr => simp [readRounds]
     | eof => simp [readRounds]
     | data b =>
       simp only [readRounds]
